@@ -1,5 +1,6 @@
 """C11 - RSA key transport gives no padding oracle (control-flow clauses)."""
 import ast
+import re
 import itertools
 
 from ..index import AnalysisError, attr_chain, norm, own_nodes
@@ -161,13 +162,14 @@ def rule_header(ctx):
     if loops:
         src = [norm(s) for s in loops[0].body]
         ok = "error_detected |= ct_lt_u32(pos, 10) & (1 ^ ct_isnonzero_u32(val))" in src and \
-            any(s.startswith("msg_start = msg_start & (65535 ^ mask) | pos + 1 & mask") for s in src)
+            any(re.match(r"msg_start = msg_start & \(65535 \^ (\w+)\) \| pos \+ 1 & \1\b", s) for s in src)
         ctx.check(R, ok, fi.qname, "short padding flagged; first separator position recorded by mask",
                   "a zero byte among the first 8 padding bytes must set error_detected and the first "
                   "separator position must be recorded by masking", fi.loc(loops[0]))
-    ok = "error_detected |= 1 ^ ct_isnonzero_u32(msg_start)" in seq and \
-        "mask = ct_lsb_prop_u16(error_detected)" in seq and \
-        "ret_msg_start = msg_start & (65535 ^ mask) | synth_msg_start & mask" in seq
+    sel = [re.match(r"ret_msg_start = msg_start & \(65535 \^ (\w+)\) \| synth_msg_start & \1$", s) for s in seq]
+    sel = [m_.group(1) for m_ in sel if m_]
+    ok = "error_detected |= 1 ^ ct_isnonzero_u32(msg_start)" in seq and len(sel) == 1 and \
+        "%s = ct_lsb_prop_u16(error_detected)" % sel[0] in seq
     ctx.check(R, ok, fi.qname, "missing separator is an error; start = real or synthetic by error_detected only",
               "the returned start must be mask-selected between msg_start and synth_msg_start by "
               "error_detected alone", fi.loc())
@@ -202,6 +204,16 @@ def _tree_outcomes(stmts, env, out):
             return True
         elif isinstance(s, ast.Pass):
             continue
+        elif isinstance(s, ast.For) and not s.orelse and isinstance(s.target, ast.Name) \
+                and not any(isinstance(x, (ast.Break, ast.Continue)) for b in s.body for x in ast.walk(b)):
+            # a loop over a short sequence the environment determines is unrolled
+            items = list(ev(s.iter, env))
+            if len(items) > 8:
+                raise Unknown("long loop")
+            for it in items:
+                env[s.target.id] = it
+                if _tree_outcomes(s.body, env, out):
+                    return True
         else:
             raise Unknown("statement " + type(s).__name__)
     return False
@@ -220,8 +232,8 @@ def rule_no_signal(ctx):
               fi.qname, "every exit returns a premaster secret",
               "processClientKeyExchange must end every path by returning a premaster secret (falling off the "
               "end or returning nothing changes what the server does next)", fi.loc())
-    loops = [n for n in own_nodes(fn) if isinstance(n, (ast.For, ast.While, ast.Try))]
-    ctx.check(R, not loops, fi.qname, "loop-free decision tree", "unexpected loop/try in processClientKeyExchange", fi.loc())
+    loops = [n for n in own_nodes(fn) if isinstance(n, (ast.While, ast.Try))]
+    ctx.check(R, not loops, fi.qname, "decision tree without while/try", "unexpected while/try in processClientKeyExchange", fi.loc())
     g = ctx.an.cfg(fi)
     rnd = [n for n in g.nodes if n.kind == "stmt" and norm(n.ast) == "randomPreMasterSecret = getRandomBytes(48)"]
     tests = [t for t in g.nodes if t.kind == "test"]
